@@ -6,20 +6,24 @@ def op(k, o=0, v=0):
     return {"k": k, "o": o, "v": v}
 
 
-def task(kind, ops, tx=(), rx=(), otx=(), orx=()):
-    return {"kind": kind, "ops": ops, "tx": list(tx), "rx": list(rx), "otx": list(otx), "orx": list(orx)}
+def task(kind, ops, tx=(), rx=(), otx=(), orx=(), wtx=(), wrx=()):
+    return {"kind": kind, "ops": ops, "tx": list(tx), "rx": list(rx), "otx": list(otx), "orx": list(orx),
+            "wtx": list(wtx), "wrx": list(wrx)}
 
 
-def tprog(pid, fam, tasks, chans=(), nos=0, nnt=0, sems=(), nmx=0):
+def tprog(pid, fam, tasks, chans=(), nos=0, nnt=0, sems=(), nmx=0, nwt=0, nrwl=0):
+    for t in tasks:
+        t.setdefault("wtx", [])
+        t.setdefault("wrx", [])
     return {"id": pid, "fam": fam, "lang": "tokio", "chans": list(chans), "nos": nos, "nnt": nnt, "sems": list(sems),
-            "nmx": nmx, "tasks": tasks}
+            "nmx": nmx, "nwt": nwt, "nrwl": nrwl, "tasks": tasks}
 
 
 def fmt_prog(p):
-    hdr = {k: p[k] for k in ("chans", "nos", "nnt", "sems", "nmx", "nrw", "nmap") if p.get(k)}
+    hdr = {k: p[k] for k in ("chans", "nos", "nnt", "sems", "nmx", "nwt", "nrwl", "nrw", "nmap") if p.get(k)}
     lines = [f"prog {p['id']} [{p['fam']}] objs={hdr}"]
     for i, t in enumerate(p["tasks"]):
-        own = {k: t[k] for k in ("tx", "rx", "otx", "orx") if t.get(k)}
+        own = {k: t[k] for k in ("tx", "rx", "otx", "orx", "wtx", "wrx") if t.get(k)}
         ops = "; ".join(("?" if o.get("c") else "") + f"{o['k']}({o['o']},{o['v']})" for o in t["ops"])
         lines.append(f"  T{i} [{t.get('kind', 'thread')}{' ' + str(own) if own else ''}]: {ops}")
     return "\n".join(lines)
@@ -280,7 +284,68 @@ def pl_corpus():
     return P
 
 
+def gen_watch(count, seed, first_id=9400):
+    rng = random.Random(f"tk_watch:{seed}")
+    out = []
+    for i in range(count):
+        nrx = rng.randint(1, 2)
+        kinds = ["thread"] + [rng.choice(["thread", "future"]) for _ in range(nrx)]
+        sops = []
+        for j in range(rng.randint(1, 3)):
+            sops.append(op(rng.choice(["w_send", "w_send", "w_send", "yield"]), 0, j + 1))
+        if rng.random() < 0.4:
+            sops.append(op("w_drop_tx", 0))
+        tasks = [task("thread", sops, wtx=[0])]
+        for r in range(1, nrx + 1):
+            rops = []
+            for _ in range(rng.randint(1, 4)):
+                rops.append(op(rng.choice(["w_changed", "w_changed", "w_borrow", "w_bupd", "w_has", "w_drop_rx"]), 0))
+                if rops[-1]["k"] == "w_drop_rx":
+                    break
+            tasks.append(task(kinds[r], rops, wrx=[0]))
+        if rng.random() < 0.3:
+            tasks[0]["wrx"] = [0]
+            tasks[0]["ops"].append(op("w_bupd", 0))
+        out.append(tprog(first_id + i, "tk_watch", tasks, nwt=1))
+    return out
+
+
+def gen_trw(count, seed, first_id=9700):
+    """tokio RwLock: readers / writers / try variants / downgrade, with the protected value read and written."""
+    rng = random.Random(f"tk_rwlock:{seed}")
+    out = []
+    for i in range(count):
+        n = rng.randint(2, 3)
+        kinds = ["thread"] + [rng.choice(["thread", "future"]) for _ in range(n - 1)]
+        tasks = []
+        for t in range(n):
+            ops = []
+            mode = "none"
+            for _ in range(rng.randint(2, 5)):
+                if mode == "none":
+                    k = rng.choice(["rw_read", "rw_read", "rw_write", "rw_write", "rw_try_read", "rw_try_write", "yield"])
+                    ops.append(op(k, 0))
+                    if k != "yield":
+                        mode = "r" if "read" in k else "w"
+                elif mode == "r":
+                    k = rng.choice(["rw_get", "rw_unlock", "rw_unlock", "yield"])
+                    ops.append(op(k, 0))
+                    if k == "rw_unlock":
+                        mode = "none"
+                else:
+                    k = rng.choice(["rw_get", "rw_set", "rw_set", "rw_downgrade", "rw_unlock", "yield"])
+                    ops.append(op(k, 0, rng.randint(1, 9) + 10 * t))
+                    mode = {"rw_downgrade": "r", "rw_unlock": "none"}.get(k, "w")
+            tasks.append(task(kinds[t], ops))
+        out.append(tprog(first_id + i, "tk_rwlock", tasks, nrwl=1))
+    return out
+
+
 def family(fam, count, seed):
+    if fam == "tk_watch":
+        return gen_watch(count, seed)
+    if fam == "tk_rwlock":
+        return gen_trw(count, seed)
     if fam == "pl_rw":
         return gen_rw(count, seed)
     if fam == "pl_dm":
